@@ -12,6 +12,7 @@ statement for every delivery sequence in which the final block is delivered
 once (`…_partial` in the sense of DESIGN.md).
 -/
 import CoapLite.Lemmas.BlockTransfer
+import CoapLite.Lemmas.Upload
 
 namespace CoapLite.C09
 open CoapLite Block
@@ -62,6 +63,28 @@ theorem final_block (M : Nat) (B : Bytes) (szx i : Nat) (req : Request) (st : Bl
         ({ num := i, more := more', szx := szx } : BlockValue).enc = .ok bs ∧
         (resp'.getOption block1Num).map (·.getLast?) = some (some bs)) :=
   upload_final M B szx i req st h hf hbuf
+
+/-- END TO END, for every body, block size and delivery schedule: `ds` are the deliveries of the
+non-final blocks (in order from block 0, each any number of times in a row), `f` the single
+delivery of the final block; `st0` is ANY prior state of the transfer's cache entry (e.g. what an
+abandoned earlier upload left behind). No delivery in `ds` reaches the application (`ok true` =
+answered by the handler), the transcript of the whole run is that of `ds` followed by the final
+delivery, the request handed on by the final delivery carries exactly the body, and the buffer
+is released. Composes `upload_prefix_partial` and `final_block` by induction over the
+deliveries. ("Partial" only in K1's sense: the final block is delivered once.) -/
+theorem upload_whole_body_partial (M : Nat) (B : Bytes) (szx : Nat) (st0 : BlockState)
+    (ds : List (Nat × Request)) (f : Nat × Request)
+    (hf1 : f.1 + 1 = nBlocks B (2 ^ (szx + 4)))
+    (h0 : ∀ d ∈ (ds ++ [f]).head?, d.1 = 0)
+    (hord : InOrder 0 (ds ++ [f]))
+    (hreq : ∀ x ∈ ds, UploadReq M B szx x.1 x.2 ∧ x.1 + 1 < nBlocks B (2 ^ (szx + 4)))
+    (hf : UploadReq M B szx f.1 f.2) :
+    (∀ o ∈ (runCore M st0 ds).2, o.2 = .ok true) ∧
+    (runCore M st0 (ds ++ [f])).2 =
+      (runCore M st0 ds).2 ++ [((coreRequest M f.2 (runCore M st0 ds).1).1, (coreRequest M f.2 (runCore M st0 ds).1).2.2)] ∧
+    (coreRequest M f.2 (runCore M st0 ds).1).1.message.payload = B ∧
+    (runCore M st0 (ds ++ [f])).1.cachedPayload = none :=
+  upload_whole M B szx st0 ds f hf1 h0 hord hreq hf
 
 /-- a request too large for the budget that carries no Block1 option is answered
 4.13 with a Block1 size hint instead of being processed -/
